@@ -1,13 +1,14 @@
 (* C03/Proofs3.v — termination of Shutdown: a ranking function and a progress lemma. *)
 From Coq Require Import Permutation.
-From Verif Require Import Common.Base C03.Model C03.Proofs C03.Proofs2.
+From Verif Require Import Common.Base C03.Model C03.Proofs C03.ProofsB C03.Proofs2.
 
 Definition wst (st : send_st) : nat := match st with SReady => 5 | SInCall => 4 | SBackoff => 3 | SDone _ => 2 end.
 Definition wrank (w : work) : nat := wst (w_st w).
 Definition bw (b : list id) : nat := 8 * length b + 7.
 
-Definition mu (s : state) : nat :=
-  20 * length (queue s) + 18 * length (holding s) + 16 * length (current s) + sumf bw (cflush s)
+Definition mu (c : cfg) (s : state) : nat :=
+  (35 + 15 * c_maxparts c) * length (queue s) + (33 + 15 * c_maxparts c) * length (holding s)
+  + 16 * length (current s) + sumf (sumf bw) (cflush s)
   + sumf wrank (works s) + idle s
   + match timer s with TRun => 1 | TFlush b => bw b + 1 | _ => 0 end
   + match pc s with
@@ -16,28 +17,46 @@ Definition mu (s : state) : nat :=
     end.
 
 (* labels of the exporter's own threads and of the backend answering a call; excluded: the producers'
-   offers and the back-off timer (a retry re-arms the work: while the retry sender is not stopped a
+   offers / sends and the back-off timer (a retry re-arms the work: while the retry sender is not stopped a
    failing backend may be retried for ever; after stop the timer branch can win only in the
    zero-interval race S4) *)
 Definition ranked (l : label) : bool :=
-  match l with LOffer _ | LOfferFail _ | LRetryTimer _ => false | _ => true end.
+  match l with LOffer _ | LOfferFail _ | LSend _ | LRetryTimer _ => false | _ => true end.
 
 Lemma ranked_decreases c s l s' : step c s l = Some s' -> ranked l = true ->
-  mu s' < mu s \/ (l = LTimerFire /\ s' = s).
+  mu c s' < mu c s \/ (l = LTimerFire /\ s' = s).
 Proof.
   intros H R. destruct l; try discriminate R; clear R.
   all: try (match goal with o : outcome |- _ => destruct o end); unfold step, is_ok, end_state in H; destr_step H;
        injection H as <-; proj.
   all: try (right; split; reflexivity).
   all: left; unfold mu, bw, wrank, wst, set_st in *; proj; rw_eqs; cbn [nonempty] in *; try discriminate;
-       splits; rewrite ?sumf_app, ?app_length in *; cbn [sumf length w_st] in *; rw_eqs; cbn [sumf length w_st] in *;
-       rewrite ?app_length in *; cbn [length] in *; try lia.
-  all: destruct (current s); cbn [nonempty length] in *; [discriminate|lia].
+       repeat match goal with Hl : (_ <? _) = false |- _ => apply Nat.ltb_ge in Hl end;
+       rewrite ?length_upd_nth in *; splits;
+       do 3 (rewrite ?sumf_app, ?app_length, ?sumf_repeat, ?repeat_length in *; cbn [sumf length w_st] in * ); rw_eqs;
+       cbn [sumf length w_st] in *; try nia.
+  all: destruct (current s); cbn [nonempty length] in *; [discriminate|nia].
 Qed.
 
-Definition wfc (c : cfg) : Prop := c_batch c = true -> 1 <= c_nwork c.
+Definition wfc (c : cfg) : Prop := (c_batch c = true -> 1 <= c_nwork c) /\ 1 <= c_maxparts c.
 
-Lemma strict c s l s' : step c s l = Some s' -> ranked l = true -> l <> LTimerFire -> mu s' < mu s.
+(* every consumer that is blocked in flush() still has a chunk to flush *)
+Definition cfne (s : state) : Prop := forallb nonempty (cflush s) = true.
+
+Lemma forallb_remove_nth {A} (f : A -> bool) l : forall k, forallb f l = true -> forallb f (remove_nth k l) = true.
+Proof. induction l as [|a l IH]; intros [|k] H; simpl in *; auto; apply andb_prop in H as [H1 H2]; auto. rewrite H1, (IH k H2). reflexivity. Qed.
+
+Lemma forallb_upd_nth {A} (f : A -> bool) l x : forall k, f x = true -> forallb f l = true -> forallb f (upd_nth k (fun _ => x) l) = true.
+Proof. induction l as [|a l IH]; intros [|k] Hx H; simpl in *; auto; apply andb_prop in H as [H1 H2]. - rewrite Hx, H2. reflexivity. - rewrite H1, (IH k Hx H2). reflexivity. Qed.
+
+Lemma step_cfne c s l s' : cfne s -> step c s l = Some s' -> cfne s'.
+Proof.
+  unfold cfne. intros C H. start H l; try assumption; rewrite ?forallb_app; cbn [forallb nonempty andb];
+    rewrite ?C; try reflexivity; try (apply forallb_remove_nth; assumption); try (apply forallb_upd_nth; [reflexivity|assumption]).
+Qed.
+
+
+Lemma strict c s l s' : step c s l = Some s' -> ranked l = true -> l <> LTimerFire -> mu c s' < mu c s.
 Proof. intros H R N. destruct (ranked_decreases _ _ _ _ H R) as [?|[? _]]; [assumption|contradiction]. Qed.
 
 Ltac fire l := exists l; eexists; split; [unfold step; rw_eqs; cbn; reflexivity | split; [reflexivity | discriminate]].
@@ -53,10 +72,10 @@ Proof.
   - exists (LDone 0). eexists. unfold step. rewrite W. cbn. rewrite E. split; [reflexivity|split; [reflexivity|discriminate]].
 Qed.
 
-Lemma progress c s : Inv c s -> wfc c -> is_not (pc s) = false -> pc s <> PReturned ->
+Lemma progress c s : Inv c s -> cfne s -> wfc c -> is_not (pc s) = false -> pc s <> PReturned ->
   exists l s', step c s l = Some s' /\ ranked l = true /\ l <> LTimerFire.
 Proof.
-  intros I WF N NR.
+  intros I CF [WF WP] N NR.
   destruct (works s) as [|w r] eqn:W; [|eapply work_step; eassumption].
   pose proof (i_workers _ _ I) as Hw. rewrite W in Hw. cbn in Hw.
   pose proof (i_consumers _ _ I) as Hn. rewrite W in Hn. cbn in Hn.
@@ -64,20 +83,30 @@ Proof.
   assert (NB : c_batch c = false -> holding s = [] /\ cflush s = [] /\ timer s = TNone /\
                match pc s with PFlushWait _ => False | _ => True end).
   { intros B. destruct (i_nobatch _ _ I B) as (A1 & _ & A3 & A4 & _ & A6). auto. }
+  assert (NQ : c_queue c = false -> match pc s with PQStopped | PJoined | PFlushWait _ | PFlushed => False | _ => True end).
+  { intros B. destruct (i_noqueue _ _ I B) as (_ & _ & _ & _ & _ & _ & _ & _ & _ & X). exact X. }
   destruct (pc s) eqn:P; try discriminate N; try congruence; cbn in Hq, Hb.
   - fire LCloseStop.
-  - fire (LQueueStop false).
+  - destruct (c_queue c) eqn:Q.
+    + exists (LQueueStop false). eexists. unfold step. rewrite P, Q. cbn. split; [reflexivity|split; [reflexivity|discriminate]].
+    + exists LNoQueue. eexists. unfold step. rewrite P, Q. split; [reflexivity|split; [reflexivity|discriminate]].
   - (* PQStopped *)
+    destruct (c_queue c) eqn:Q; [|destruct (NQ eq_refl)]. rewrite andb_true_l in Hq.
     destruct (idle s) as [|n] eqn:Ei.
     + destruct (holding s) as [|i h] eqn:Eh.
       * destruct (cflush s) as [|b f] eqn:Ef.
         -- exists LJoinConsumers. eexists. unfold step. rewrite P. cbn in Hn.
-           replace (Nat.eqb (exited s) (c_ncons c)) with true by (symmetry; apply Nat.eqb_eq; lia).
+           replace (Nat.eqb (exited s) (ncons_eff c)) with true by (symmetry; apply Nat.eqb_eq; lia).
            split; [reflexivity|split; [reflexivity|discriminate]].
         -- destruct (c_batch c) eqn:B; [|destruct (NB eq_refl) as (_ & X & _); discriminate].
-           specialize (WF B). destruct (workers s) as [|m] eqn:Em; [lia|].
-           exists (LSpawnC 0). eexists. unfold step. rewrite Ef, Em. cbn. split; [reflexivity|split; [reflexivity|discriminate]].
-      * exists (LAbsorb 0 false). eexists. unfold step. rewrite Eh. cbn. split; [reflexivity|split; [reflexivity|discriminate]].
+           specialize (WF eq_refl). destruct (workers s) as [|m] eqn:Em; [lia|].
+           unfold cfne in CF. rewrite Ef in CF. cbn in CF. apply andb_prop in CF as [CF1 _].
+           destruct b as [|b0 rest]; [discriminate|].
+           destruct rest; exists (LSpawnC 0); eexists; unfold step; rewrite Ef, Em; cbn [nth_error];
+             (split; [reflexivity|split; [reflexivity|discriminate]]).
+      * exists (LAbsorb 0 1 true). eexists. unfold step. rewrite Eh. cbn [nth_error].
+        replace (Nat.ltb (c_maxparts c) 1) with false by (symmetry; apply Nat.ltb_ge; lia).
+        split; [reflexivity|split; [reflexivity|discriminate]].
     + destruct (c_persist c) eqn:Pe.
       * exists LConsExit. eexists. unfold step. rewrite Ei, Hq, Pe. cbn. split; [reflexivity|split; [reflexivity|discriminate]].
       * destruct (queue s) as [|i q] eqn:Eq.
@@ -86,16 +115,17 @@ Proof.
   - fire LFinalFlush.
   - (* PFlushWait *)
     destruct (c_batch c) eqn:B; [|destruct (NB eq_refl) as (_ & _ & _ & X); contradiction].
-    specialize (WF B). destruct (workers s) as [|m] eqn:Em; [lia|].
+    specialize (WF eq_refl). destruct (workers s) as [|m] eqn:Em; [lia|].
     exists LFinalSpawn. eexists. unfold step. rewrite P, Em. split; [reflexivity|split; [reflexivity|discriminate]].
   - (* PFlushed *)
+    destruct (c_queue c) eqn:Q; [|destruct (NQ eq_refl)]. rewrite andb_true_l in Hb.
     assert (J : ge_joined (pc s) = true) by (rewrite P; reflexivity).
     destruct (joined_quiet _ _ I J) as (_ & _ & Hf & _).
     destruct (timer s) eqn:T.
     + exists LJoinFlushes. eexists. unfold step. rewrite P, W, T, Hf. cbn. split; [reflexivity|split; [reflexivity|discriminate]].
     + exists LTimerExit. eexists. unfold step. rewrite T, Hb. split; [reflexivity|split; [reflexivity|discriminate]].
     + destruct (c_batch c) eqn:B; [|destruct (NB eq_refl) as (_ & _ & X & _); discriminate].
-      specialize (WF B). destruct (workers s) as [|m] eqn:Em; [lia|].
+      specialize (WF eq_refl). destruct (workers s) as [|m] eqn:Em; [lia|].
       exists LTimerSpawn. eexists. unfold step. rewrite T, Em. split; [reflexivity|split; [reflexivity|discriminate]].
     + exists LJoinFlushes. eexists. unfold step. rewrite P, W, T, Hf. cbn. split; [reflexivity|split; [reflexivity|discriminate]].
   - fire LInnerShutdown.
@@ -103,27 +133,34 @@ Proof.
 Qed.
 
 (* from every reachable state in which Shutdown has been called, Return is reachable using only
-   ranked labels (no further offer, no back-off timer), in at most [mu s] steps *)
-Lemma reach_return c : wfc c -> forall n s, mu s <= n -> Inv c s -> is_not (pc s) = false ->
-  exists ls s', run c s ls = Some s' /\ pc s' = PReturned /\ forallb ranked ls = true /\ length ls <= mu s.
+   ranked labels (no further offer, no back-off timer), in at most [mu c s] steps *)
+Lemma reach_return c : wfc c -> forall n s, mu c s <= n -> Inv c s -> cfne s -> is_not (pc s) = false ->
+  exists ls s', run c s ls = Some s' /\ pc s' = PReturned /\ forallb ranked ls = true /\ length ls <= mu c s.
 Proof.
-  intros WF. induction n as [|n IH]; intros s M I N.
+  intros WF. induction n as [|n IH]; intros s M I CF N.
   - destruct (pc s) eqn:P; try discriminate N.
     all: try (exfalso; unfold mu in M; rewrite P in M; lia).
     exists [], s; split; [reflexivity|split; [assumption|split; [reflexivity|simpl; lia]]].
   - destruct (pc s) eqn:P; try discriminate N.
     all: try (exists [], s; split; [reflexivity|split; [assumption|split; [reflexivity|simpl; lia]]]).
-    all: destruct (progress c s I WF) as (l & s1 & St & R & NT); [rewrite P; reflexivity | rewrite P; discriminate|];
+    all: destruct (progress c s I CF WF) as (l & s1 & St & R & NT); [rewrite P; reflexivity | rewrite P; discriminate|];
          pose proof (strict _ _ _ _ St R NT) as D;
          assert (N1 : is_not (pc s1) = false) by (eapply step_pc_called; [eassumption|rewrite P; reflexivity]);
-         destruct (IH s1 ltac:(lia) (step_inv _ _ _ _ I St) N1) as (ls & s2 & Rn & Pr & Rk & Ln);
+         destruct (IH s1 ltac:(lia) (step_inv _ _ _ _ I St) (step_cfne _ _ _ _ CF St) N1) as (ls & s2 & Rn & Pr & Rk & Ln);
          exists (l :: ls), s2; (split; [simpl; rewrite St; assumption|]); (split; [assumption|]);
          (split; [simpl; rewrite R, Rk; reflexivity | simpl; lia]).
 Qed.
 
+Lemma run_cfne c : forall ls s s', cfne s -> run c s ls = Some s' -> cfne s'.
+Proof.
+  induction ls as [|l ls IH]; intros s s' C H; simpl in H.
+  - injection H as <-. assumption.
+  - destruct (step c s l) eqn:E; [|discriminate]. eapply IH; [eapply step_cfne; eassumption | eassumption].
+Qed.
+
 (* no run of ranked labels is longer than mu (apart from no-op timer ticks) *)
 Lemma ranked_runs_bounded c : forall ls s s', run c s ls = Some s' -> forallb ranked ls = true ->
-  mu s' + length (filter (fun l => match l with LTimerFire => false | _ => true end) ls) <= mu s.
+  mu c s' + length (filter (fun l => match l with LTimerFire => false | _ => true end) ls) <= mu c s.
 Proof.
   induction ls as [|l ls IH]; intros s s' H R; simpl in *.
   - injection H as <-. lia.
@@ -143,9 +180,9 @@ Definition ctl (s : state) :=
 
 Lemma refuted_l : exists c ls s cyc s',
   run c (init c) ls = Some s /\ rstop s = true /\ is_not (pc s) = false /\ pc s <> PReturned /\
-  cyc <> [] /\ run c s cyc = Some s' /\ ctl s' = ctl s /\ mu s' = mu s /\ length (begun s') = S (length (begun s)).
+  cyc <> [] /\ run c s cyc = Some s' /\ ctl s' = ctl s /\ mu c s' = mu c s /\ length (begun s') = S (length (begun s)).
 Proof.
-  exists (mkCfg false false false true 1 0),
+  exists (mkCfg true false false false true 1 0 1),
          [LOffer 1; LTake; LBegin 0; LEnd 0 OTransient; LShutCall; LCloseStop; LQueueStop false].
   eexists. exists [LRetryTimer 0; LBegin 0; LEnd 0 OTransient]. eexists.
   split; [vm_compute; reflexivity|]. split; [reflexivity|]. split; [reflexivity|]. split; [discriminate|].
@@ -190,8 +227,8 @@ Lemma queue_stop_error_l c s s1 s2 :
   step c s (LQueueStop true) = Some s1 -> step c s (LQueueStop false) = Some s2 ->
   s2 = set_shuterr false s1 /\ shuterr s1 = true /\ pc s1 = PQStopped /\ qstop s1 = true.
 Proof.
-  unfold step. destruct (pc s); try discriminate. destruct (c_persist c); intros H1 H2;
-    injection H1 as <-; injection H2 as <-; repeat split.
+  unfold step. destruct (pc s); try discriminate. destruct (c_queue c); try discriminate. cbn [negb].
+  destruct (c_persist c); intros H1 H2; injection H1 as <-; injection H2 as <-; repeat split.
 Qed.
 
 (* the stop branch of the back-off wait: once stopCh is closed every work waiting in its back-off can be
@@ -209,3 +246,65 @@ Qed.
 (* ... and stopCh is closed by the first step of Shutdown whenever retry is enabled, queue or no queue *)
 Lemma close_stop_l c s s' : step c s LCloseStop = Some s' -> rstop s' = c_retry c.
 Proof. unfold step. destruct (pc s); try discriminate. intros H. injection H as <-. reflexivity. Qed.
+
+(* ---- exporter without queue and batcher ------------------------------------------------------------ *)
+Definition ge_stopclosed (p : pc_t) : bool := match p with PNot | PCalled => false | _ => true end.
+
+Lemma step_rstop c s l s' : step c s l = Some s' ->
+  (ge_stopclosed (pc s) = true -> rstop s = c_retry c) -> ge_stopclosed (pc s') = true -> rstop s' = c_retry c.
+Proof.
+  intros H. start H l; rw_eqs; cbn [ge_stopclosed] in *; intros A G; try discriminate; try reflexivity; try (apply A; assumption);
+    try (apply A; reflexivity).
+Qed.
+
+Lemma run_rstop c : forall ls s s', run c s ls = Some s' ->
+  (ge_stopclosed (pc s) = true -> rstop s = c_retry c) -> ge_stopclosed (pc s') = true -> rstop s' = c_retry c.
+Proof.
+  induction ls as [|l ls IH]; intros s s' H A G; simpl in H.
+  - injection H as <-. auto.
+  - destruct (step c s l) as [s1|] eqn:E; [|discriminate]. eapply IH; [eassumption| |assumption].
+    intros G1. eapply step_rstop; eassumption.
+Qed.
+
+Lemma caller_only (l : list work) : sumf wcons l = 0 -> sumf wfly l = 0 -> forallb is_caller l = true.
+Proof.
+  induction l as [|w l IH]; simpl; auto. unfold wcons at 1, wfly at 1, is_caller at 1.
+  destruct (w_own w); intros A B; try lia. apply IH; lia.
+Qed.
+
+(* Shutdown of an exporter without queue never waits: its four steps are enabled one after the other *)
+Lemma direct_never_waits_l c s : c_queue c = false -> pc s = PCalled ->
+  exists s', run c s [LCloseStop; LNoQueue; LInnerShutdown; LReturn] = Some s' /\ pc s' = PReturned /\
+             rstop s' = c_retry c /\ works s' = works s.
+Proof.
+  intros Q P. eexists. cbn [run step]. rewrite P. cbn [pc set_pc set_rstop]. rewrite Q. cbn [pc set_pc].
+  split; [reflexivity|]. cbn. repeat split.
+Qed.
+
+(* ... and when it has returned the retry sender is stopped, the wrapped exporter is shut down, and the only
+   goroutines still inside the exporter are callers of Send *)
+Lemma direct_returned_l c ls s : c_queue c = false -> run c (init c) ls = Some s -> pc s = PReturned ->
+  rstop s = c_retry c /\ forallb is_caller (works s) = true /\ live s = length (works s) /\ postb s = 0.
+Proof.
+  intros Q R P. assert (I : Inv c s) by (eapply run_inv; [apply init_inv|eassumption]).
+  destruct (i_noqueue _ _ I Q) as (_ & A2 & _ & A4 & A5 & A6 & A7 & A8 & _).
+  split; [eapply (run_rstop c ls (init c) s R); [discriminate | rewrite P; reflexivity]|].
+  split; [apply caller_only; assumption|]. split; [|apply (i_postb _ _ I)].
+  unfold live. rewrite A2, A4, A5, A6. simpl. lia.
+Qed.
+
+Lemma terminates_l c ls s :
+  wfc c -> run c (init c) ls = Some s -> is_not (pc s) = false ->
+  (exists ls' s', run c s ls' = Some s' /\ pc s' = PReturned /\ forallb ranked ls' = true /\ length ls' <= mu c s)
+  /\ (pc s <> PReturned -> exists l s', step c s l = Some s' /\ ranked l = true /\ mu c s' < mu c s)
+  /\ (forall ls' s', run c s ls' = Some s' -> forallb ranked ls' = true ->
+        mu c s' + length (filter (fun l => match l with LTimerFire => false | _ => true end) ls') <= mu c s).
+Proof.
+  intros WF R N.
+  assert (I : Inv c s) by (eapply run_inv; [apply init_inv|eassumption]).
+  assert (CF : cfne s) by (eapply run_cfne; [|eassumption]; reflexivity).
+  split; [eapply reach_return; eauto|]. split.
+  - intros NR. destruct (progress c s I CF WF N NR) as (l & s' & St & Rk & NT).
+    exists l, s'. split; [assumption|]. split; [assumption|]. eapply strict; eassumption.
+  - intros ls' s'. apply ranked_runs_bounded.
+Qed.
